@@ -5,7 +5,7 @@ from hypothesis import strategies as st
 
 from anytree import LevelOrderGroupIter, LevelOrderIter, PostOrderIter, PreOrderIter, ZigZagGroupIter
 
-from .. import forest, nodes, refs, shapes, strategies
+from .. import big, forest, nodes, refs, shapes, strategies
 from ..core import Violation
 
 PROP_ID = "C05"
@@ -14,7 +14,8 @@ RULE = (
     "cases = (ordered tree shape, start node, node class); every shape up to the stated size is enumerated with every "
     "start node (quick <= 8 nodes, thorough <= 11), plus Hypothesis-generated shapes up to 60 nodes (uniform/chain/star "
     "biased parent arrays). Besides one-go consumption every iterator object is also used in two portions (loop left early, "
-    "next(), islice, zip, a sub-iterator from iter(), then resumed and exhausted), abandoned half-way and interleaved with another one. Non-trivial = the start node's subtree has >= 4 nodes and height >= 2; enumerated cases are "
+    "next(), islice, zip, a sub-iterator from iter(), then resumed and exhausted), abandoned half-way and interleaved with another one. Trunks of 270-400 nodes with a crown for all five iterators; "
+    "two parallel chains deeper than the interpreter's recursion limit for the three breadth-first iterators. Non-trivial = the start node's subtree has >= 4 nodes and height >= 2; enumerated cases are "
     "distinct by construction, generated ones are de-duplicated by a 64-bit hash of the case."
 )
 ASSUMPTIONS = [
@@ -42,7 +43,32 @@ def check_deep(case, acc):
     acc.tag("deep_tree_cases")
 
 
+def check_very_deep(case, acc):
+    """The three breadth-first iterators on a tree deeper than the interpreter's recursion limit (they are loops, not
+    recursions, in the library; the depth-first ones are recursive there and are left out)."""
+    make = nodes.factory(case["cls"])
+    depth = big.deep_size(1)
+    root, left, right, twigs = big.build_double_ladder(make, depth)
+    for start in (root, left[depth // 3]):
+        lvls = refs.levels(start)
+        want_level = [n for lv in lvls for n in lv]
+        got = list(LevelOrderIter(start))
+        if not refs.same_seq(got, want_level):
+            raise Violation("levelorder", "tree of height %d: LevelOrderIter yields %d nodes, the subtree has %d (first difference at position %s)" % (len(lvls) - 1, len(got), len(want_level), next((i for i, (a, b) in enumerate(zip(got, want_level)) if a is not b), min(len(got), len(want_level)))))
+        groups = list(LevelOrderGroupIter(start))
+        if [_ids(g) for g in groups] != [_ids(tuple(lv)) for lv in lvls]:
+            bad = next((i for i, (g, lv) in enumerate(zip(groups, lvls)) if _ids(g) != _ids(tuple(lv))), min(len(groups), len(lvls)))
+            raise Violation("levelordergroup", "tree of height %d: LevelOrderGroupIter yields %d tuples for %d levels; first wrong tuple is #%d" % (len(lvls) - 1, len(groups), len(lvls), bad))
+        zz = list(ZigZagGroupIter(start))
+        if [_ids(g) for g in zz] != [_ids(tuple(g)) for g in refs.zigzag(lvls)]:
+            raise Violation("zigzag", "tree of height %d: ZigZagGroupIter yields %d tuples for %d levels or a wrong direction" % (len(lvls) - 1, len(zz), len(lvls)))
+    acc.nontrivial(True)
+    acc.tag("trees_deeper_than_the_recursion_limit")
+
+
 def check_case(case, acc):
+    if case.get("kind") == "very-deep":
+        return check_very_deep(case, acc)
     if case.get("kind") == "deep":
         return check_deep(case, acc)
     make = nodes.factory(case["cls"])
@@ -212,10 +238,17 @@ def plan(tier, seed):
     tasks = [{"engine": "enum", "max_nodes": max_nodes, "index": i, "count": nshards} for i in range(nshards)]
     tasks += [{"engine": "hyp", "examples": examples, "seed": seed * 1000 + i} for i in range(nshards)]
     tasks += [{"engine": "deep", "depth": d, "cls": c} for d in ((270,) if tier == "quick" else (130, 270, 400)) for c in ("Node", "SlotLM")]
+    tasks += [{"engine": "very-deep", "cls": c} for c in ("Node", "SlotLM")]
     return tasks
 
 
 def run_task(task, acc):
+    if task["engine"] == "very-deep":
+        case = {"kind": "very-deep", "cls": task["cls"]}
+        exc = acc.evaluate(check_case, case, enumerated=False)
+        if exc is not None:
+            acc.add_violation(case, exc)
+        return
     if task["engine"] == "deep":
         case = {"kind": "deep", "depth": task["depth"], "cls": task["cls"]}
         exc = acc.evaluate(check_case, case, enumerated=False)
